@@ -70,6 +70,15 @@ type Destination struct {
 
 // New creates a destination object. Note that it still needs to be told to run via Run().
 func New(routeName string, matcher matcher.Matcher, addr, spoolDir string, spool, pickle bool, periodFlush, periodReConn time.Duration, connBufSize, ioBufSize, spoolBufSize int, spoolMaxBytesPerFile, spoolSyncEvery int64, spoolSyncPeriod, spoolSleep, unspoolSleep time.Duration) (*Destination, error) {
+	if periodFlush <= 0 || periodReConn <= 0 {
+		return nil, errors.New("flush and reconn periods must be > 0")
+	}
+	if connBufSize < 0 || ioBufSize <= 0 {
+		return nil, errors.New("connbuf must be >= 0 and iobuf must be > 0")
+	}
+	if spool && (spoolBufSize < 0 || spoolSyncPeriod <= 0) {
+		return nil, errors.New("spoolbuf must be >= 0 and spoolsyncperiod must be > 0")
+	}
 	key := util.Key(routeName, addr)
 	addr, instance := addrInstanceSplit(addr)
 	dest := &Destination{
